@@ -585,6 +585,9 @@ class Interp:
             if e.id in env:
                 return env[e.id]
             return Opaque(f"name {e.id}")
+        if isinstance(e, ast.UnaryOp) and isinstance(e.op, ast.Not):
+            v = self.ev(e.operand, env)
+            return (not v) if isinstance(v, bool) else Opaque("not of a value that is not a truth value")
         if isinstance(e, ast.UnaryOp) and isinstance(e.op, ast.USub):
             v = self.ev(e.operand, env)
             if isinstance(v, SymObject) and hasattr(v, "neg"):
@@ -615,6 +618,10 @@ class Interp:
                 return LP.const(Fraction(l, r))
             if isinstance(l, int) and isinstance(r, int) and not isinstance(l, bool) and not isinstance(r, bool) and isinstance(e.op, (ast.FloorDiv, ast.Mod)) and r != 0:
                 return l // r if isinstance(e.op, ast.FloorDiv) else l % r
+            if isinstance(e.op, ast.Mult) and ((isinstance(l, (tuple, list)) and isinstance(r, int)) or (isinstance(r, (tuple, list)) and isinstance(l, int))):
+                seq, k_ = (l, r) if isinstance(l, (tuple, list)) else (r, l)
+                if not isinstance(k_, bool) and 0 <= k_ <= 8:
+                    return type(seq)(list(seq) * k_)
             if isinstance(l, (tuple, list)) and isinstance(r, (tuple, list)) and isinstance(e.op, ast.Add):
                 return type(l)(list(l) + list(r)) if type(l) is type(r) else tuple(list(l) + list(r))
             if isinstance(e.op, ast.Pow):
@@ -738,6 +745,9 @@ class Interp:
                 table = {ast.Eq: l == r, ast.NotEq: l != r, ast.Lt: l < r, ast.LtE: l <= r, ast.Gt: l > r, ast.GtE: l >= r}
                 if type(op) in table:
                     return table[type(op)]
+            if isinstance(l, (tuple, list)) and isinstance(r, (tuple, list)) and isinstance(op, (ast.Eq, ast.NotEq)) \
+                    and all(isinstance(x, int) for x in list(l) + list(r)):
+                return (tuple(l) == tuple(r)) == isinstance(op, ast.Eq)
             if self.generic and isinstance(op, (ast.Eq, ast.NotEq)) and isinstance(l, (LP, int)) and isinstance(r, (LP, int)) and not isinstance(l, bool) and not isinstance(r, bool):
                 # generic position: two polynomials are equal only if they are the same polynomial
                 same_ = zero_mod(self.lp(l) - self.lp(r), self.rules)
@@ -954,7 +964,13 @@ class Interp:
             if name in ("dot", "matmul") and len(e.args) == 2 and not e.keywords:
                 return _dot(self.num(self.ev(e.args[0], env)), self.num(self.ev(e.args[1], env)))
             if name in ("prod", "sum") and len(e.args) == 1 and not e.keywords and not isinstance(e.args[0], (ast.GeneratorExp, ast.ListComp)):
-                v = self.num(self.ev(e.args[0], env))
+                v0 = self.ev(e.args[0], env)
+                if isinstance(v0, (list, tuple)) and all(isinstance(x, int) and not isinstance(x, bool) for x in v0):
+                    out_ = 1 if name == "prod" else 0
+                    for x in v0:
+                        out_ = out_ * x if name == "prod" else out_ + x
+                    return out_
+                v = self.num(v0)
                 if isinstance(v, Table):
                     out = LP.const(1 if name == "prod" else 0)
                     for x in v.data.values():
@@ -1126,6 +1142,12 @@ class Interp:
                 v = self.ev(e.args[0], env)
                 if isinstance(v, bool):
                     return v
+                if isinstance(v, (list, tuple)) and all(isinstance(x, bool) for x in v):
+                    return all(v) if name == "all" else any(v)
+            if name == "sum" and len(e.args) == 1 and isinstance(f, ast.Name):
+                v = self.ev(e.args[0], env)
+                if isinstance(v, (list, tuple)) and all(isinstance(x, int) and not isinstance(x, bool) for x in v):
+                    return sum(v)
             if name in ("stack", "vstack") and e.args:
                 v = self.ev(e.args[0], env)
                 if isinstance(v, list) and v and all(isinstance(x, list) for x in v) and _numpy() is not None:
@@ -2356,3 +2378,210 @@ def rule_point_dist(run: Run, prog: Program) -> int:
                 "the square of the returned expression is not the squared Euclidean distance" + (f": it is {ratio} times that" if ratio is not None else "")
                 + (" (an imaginary part is left)" if imaginary else ""), loc)
     return 1
+
+
+# ---------------------------------------------------------------------------------------------- join and meet of 1-tensors (C01)
+class TensorSym(SymObject):
+    """a tensor of the library with a symbolic array: index types as (covariant count, contravariant count), covariant indices stored first"""
+
+    def __init__(self, table: Table, n_cov: int, n_con: int, kinds: set[str] | None = None, eps: bool = False):
+        self.array = table
+        self.tensor_shape = (n_cov, n_con)
+        self._covariant_indices = list(range(n_cov))
+        self._contravariant_indices = list(range(n_cov, n_cov + n_con))
+        self.rank = n_cov + n_con
+        self.free_indices = 0
+        self.shape = table.shape
+        self.dim = table.shape[0] - 1 if table.shape else 0
+        self.kinds = kinds or {"Tensor"}
+        self.eps = eps
+
+    def copy(self):
+        return TensorSym(self.array, self.tensor_shape[0], self.tensor_shape[1], self.kinds, self.eps)
+
+    def is_zero(self, *a, **k):
+        return False  # arguments in general position: no contraction vanishes identically (checked by the rule on the result)
+
+
+def levi_civita(n: int, covariant: bool) -> TensorSym:
+    def sign(perm):
+        if len(set(perm)) != len(perm):
+            return 0
+        return -1 if sum(1 for i in range(len(perm)) for j in range(i + 1, len(perm)) if perm[i] > perm[j]) % 2 else 1
+    t = Table((n,) * n, {idx: LP.const(sign(idx)) for idx in itertools.product(range(n), repeat=n)})
+    return TensorSym(t, n if covariant else 0, 0 if covariant else n, {"Tensor", "LeviCivitaTensor"}, eps=True)
+
+
+class SymDiagram(SymObject):
+    """TensorDiagram(*edges).calculate() on symbolic tensors, as C05 states it (and E14 verifies for the library's bookkeeping): an edge (a, b) sums the
+    first unused covariant index of a with the first unused contravariant index of b; the result carries the uncontracted covariant indices in node
+    order, then the uncontracted contravariant ones"""
+
+    def __init__(self, edges: list):
+        self.edges = edges
+
+    def calculate(self):
+        nodes: list = []
+        unused: dict = {}
+        pairs = []
+        for a, b in self.edges:
+            if not isinstance(a, TensorSym) or not isinstance(b, TensorSym):
+                raise Unknown("diagram node that is not a symbolic tensor")
+            for x in (a, b):
+                if id(x) not in unused:
+                    unused[id(x)] = (list(x._covariant_indices), list(x._contravariant_indices))
+                    nodes.append(x)
+            fs, ft = unused[id(a)][0], unused[id(b)][1]
+            if not fs or not ft:
+                raise Unknown("an edge without an index left")
+            i, j = fs.pop(0), ft.pop(0)
+            if a.array.shape[i] != b.array.shape[j]:
+                raise Unknown("dimension mismatch")
+            pairs.append(((id(a), i), (id(b), j)))
+        # label every axis: contracted pairs share a label
+        label: dict = {}
+        nxt = 0
+        for pa, pb in pairs:
+            label[pa] = label[pb] = nxt
+            nxt += 1
+        out_cov, out_con = [], []
+        for x in nodes:
+            for ax in unused[id(x)][0]:
+                label[(id(x), ax)] = nxt
+                out_cov.append(nxt)
+                nxt += 1
+        for x in nodes:
+            for ax in unused[id(x)][1]:
+                label[(id(x), ax)] = nxt
+                out_con.append(nxt)
+                nxt += 1
+        out = out_cov + out_con
+        sizes = {}
+        for x in nodes:
+            for ax in range(x.rank):
+                sizes[label[(id(x), ax)]] = x.array.shape[ax]
+        summed = [l for l in range(nxt) if l not in out]
+        # sparse evaluation: start from the Levi-Civita node (few non-zero entries) when there is one
+        order = sorted(nodes, key=lambda x: 0 if x.eps else 1)
+        data: dict = {}
+        all_labels = out + summed
+        if len(all_labels) > 9:
+            raise Unknown("diagram too large")
+
+        def rec(k: int, assign: dict, coef: LP):
+            if coef.is_zero():
+                return
+            if k == len(order):
+                key = tuple(assign[l] for l in out)
+                data[key] = data.get(key, LP()) + coef
+                return
+            x = order[k]
+            labs = [label[(id(x), ax)] for ax in range(x.rank)]
+            free = [l for l in dict.fromkeys(labs) if l not in assign]
+            for vals in itertools.product(*[range(sizes[l]) for l in free]):
+                a2 = dict(assign)
+                a2.update(zip(free, vals))
+                entry = x.array.data[tuple(a2[l] for l in labs)]
+                if entry.is_zero():
+                    continue
+                rec(k + 1, a2, coef * entry)
+        rec(0, {}, LP.const(1))
+        shape = tuple(sizes[l] for l in out)
+        table = Table(shape, {idx: data.get(idx, LP()) for idx in itertools.product(*[range(s_) for s_ in shape])})
+        return TensorSym(table, len(out_cov), len(out_con))
+
+
+def rule_join_meet(run: Run, prog: Program) -> int:
+    run.rule("E19.join", "join and meet of points / lines / planes given as 1-tensors with symbolic coordinates, interpreted through _join_meet_duality and the tensor "
+                         "diagram it builds: the result is incident with every argument, does not vanish identically, changes only by a sign with the order of the "
+                         "arguments, and the round trips meet(join(p,q), join(p,r)) ~ p and join(meet(l,m), meet(l,n)) ~ l hold - polynomial identities")
+    fn = prog.find_func("_join_meet_duality")
+    if fn is None:
+        run.add("E19.join", "_join_meet_duality", "1-tensors", UNDECIDED, "_join_meet_duality not found", "")
+        return 0
+    fn = prog.body_of(fn)
+    params = fn.node.args
+    if params.vararg is None:
+        run.add("E19.join", fn.short, "1-tensors", UNDECIDED, "the dispatcher no longer takes *args", fn.loc)
+        return 0
+    point_kinds = {"PointTensor", "Point", "PointLikeTensor", "Tensor", "ProjectiveTensor"}
+    plane_kinds = {"SubspaceTensor", "Subspace", "Tensor", "ProjectiveTensor", "PlaneTensor", "Plane", "LineTensor", "Line"}
+
+    def obj(name: str, n: int, point: bool) -> TensorSym:
+        t = Table((n,), {(i,): LP.sym(f"{name}{i}") for i in range(n)})
+        kinds = set(point_kinds) if point else ({"SubspaceTensor", "Subspace", "Tensor", "ProjectiveTensor"} | ({"LineTensor", "Line"} if n == 3 else {"PlaneTensor", "Plane"}))
+        return TensorSym(t, 1 if point else 0, 0 if point else 1, kinds)
+
+    def call(args: list) -> TensorSym:
+        it = Interp(prog, None, {})
+        it.generic = True
+        it.hooks = {"LeviCivitaTensor": lambda a_, k_: levi_civita(a_[0], a_[1] if len(a_) > 1 else k_.get("covariant", True))
+                    if a_ and isinstance(a_[0], int) and isinstance(a_[1] if len(a_) > 1 else k_.get("covariant", True), bool) else Opaque("eps"),
+                    "TensorDiagram": lambda a_, k_: SymDiagram([tuple(x) for x in a_]) if a_ and all(isinstance(x, (list, tuple)) and len(x) == 2 for x in a_) else Opaque("diagram"),
+                    "from_tensor": lambda a_, k_: a_[-1], "_divide_by_power_of_two": lambda a_, k_: a_[0], "max": lambda a_, k_: Opaque("max"), "frexp": lambda a_, k_: Opaque("frexp")}
+        env = {params.vararg.arg: list(args)}
+        for kwarg, d in zip(params.kwonlyargs, params.kw_defaults):
+            if d is not None:
+                env[kwarg.arg] = it.ev(d, {})
+        try:
+            it.block(fn.node.body, env)
+        except _Done as d:
+            got = d.matrix
+            if isinstance(got, TensorSym):
+                return got
+            raise Unknown(f"the result is not a tensor ({getattr(got, 'why', type(got).__name__)[:60]})") from None
+        except _Raise:
+            raise Unknown("the path raises") from None
+        raise Unknown("nothing is returned")
+
+    def dot(a: TensorSym, b: TensorSym) -> LP:
+        return sum((a.array.data[(i,)] * b.array.data[(i,)] for i in range(a.array.shape[0])), LP())
+
+    def prop_to(a: TensorSym, b: TensorSym) -> bool:
+        n_ = a.array.shape[0]
+        return a.array.shape == b.array.shape and not all(a.array.data[(i,)].is_zero() for i in range(n_)) and all(
+            (a.array.data[(i,)] * b.array.data[(j,)] - a.array.data[(j,)] * b.array.data[(i,)]).is_zero() for i in range(n_) for j in range(i + 1, n_))
+
+    n_ob = 0
+    cases = [("join of two points of the plane", 3, True, 2), ("meet of two lines of the plane", 3, False, 2),
+             ("join of three points of 3-space", 4, True, 3), ("meet of three planes of 3-space", 4, False, 3)]
+    for label, n, point, k in cases:
+        n_ob += 1
+        args = [obj("pqr"[i] if point else "lmn"[i], n, point) for i in range(k)]
+        try:
+            res = call(args)
+            problems = []
+            if res.array.shape != (n,) or res.tensor_shape != ((0, 1) if point else (1, 0)):
+                problems.append(f"the result has index types {res.tensor_shape} and shape {res.array.shape}")
+            else:
+                if all(x.is_zero() for x in res.array.data.values()):
+                    problems.append("the result vanishes identically")
+                for a in args:
+                    if not dot(res, a).is_zero():
+                        problems.append(f"the result is not incident with argument `{next(iter(a.array.data[(0,)].t))[0][0][:-1]}`")
+                swapped = call([args[1], args[0]] + args[2:])
+                if not prop_to(swapped, res):
+                    problems.append("exchanging two arguments changes the result by more than a scalar")
+        except (Unknown, NotPolynomial, RecursionError) as ex:
+            run.add("E19.join", fn.short, label, UNDECIDED, f"not read: {str(ex)[:110]}", fn.loc)
+            continue
+        if problems:
+            run.add("E19.join", fn.short, label, VIOLATION, "; ".join(dict.fromkeys(problems)), fn.loc)
+        else:
+            run.add("E19.join", fn.short, label, PROVEN, "incident with every argument, not identically zero, independent of the order of the arguments up to a scalar", fn.loc)
+    # round trips in the plane
+    for label, point in (("meet(join(p, q), join(p, r)) is p", True), ("join(meet(l, m), meet(l, n)) is l", False)):
+        n_ob += 1
+        a, b, c = (obj(x, 3, point) for x in ("pqr" if point else "lmn"))
+        try:
+            first, second = call([a, b]), call([a, c])
+            for x in (first, second):
+                x.kinds = {"SubspaceTensor", "Subspace", "Tensor", "ProjectiveTensor", "LineTensor", "Line"} if point else set(point_kinds)
+            back = call([first, second])
+            ok = prop_to(back, a)
+        except (Unknown, NotPolynomial, RecursionError) as ex:
+            run.add("E19.join", fn.short, label, UNDECIDED, f"not read: {str(ex)[:110]}", fn.loc)
+            continue
+        run.add("E19.join", fn.short, label, PROVEN if ok else VIOLATION,
+                "the round trip returns a multiple of the common argument" if ok else "the round trip does not return a multiple of the common argument", fn.loc)
+    return n_ob
